@@ -98,8 +98,29 @@ def helper_policy(repo):
     """base_src(node): returns '(%s)' % node.src under a condition -> evaluator(child node, child priority) or None if absent"""
     f = repo.fn_opt(AT, 'base_src')
     if f is None: return None
-    conds = [s.test for s in walk_no_nested(f.node) if isinstance(s, ast.If) and any(isinstance(x, ast.Return) and "'(%s)'" in norm(x.value) for x in s.body)]
-    if len(conds) != 1: raise AnalysisError('C04: base_src shape changed')
+    # the condition under which the function returns the parenthesised text: the disjunction, over all paths from the entry to a
+    # `return '(%s)' % ...`, of the conjunction of the branch outcomes along the path (tiny function: paths are enumerated), with local flags
+    # replaced by their definitions -- so `if C: return '(%s)'..`, `if not C: return src; return '(%s)'..`, `flag = C; if flag: ...` agree
+    from ..cfg import CFG
+    from ..typestate import resolve_flags
+    g = CFG(f.node, name='base_src')
+    paren = {n.id for n in g.nodes if n.kind == 'stmt' and isinstance(n.ast, ast.Return) and n.ast.value is not None and "'(%s)'" in norm(n.ast.value)}
+    if not paren: raise AnalysisError('C04: base_src no longer returns a parenthesised form')
+    disj = []
+    def walk(nid, lits, seen):
+        if nid in paren: disj.append(list(lits)); return
+        if nid in seen or len(seen) > 60: return
+        for y, lab in g.succ[nid]:
+            n_ = g.nodes[nid]
+            if lab in ('exc', 'unmatched'): continue
+            if n_.kind == 'test' and lab in ('T', 'F'):
+                t = resolve_flags(f.node, n_.ast, depth=3)
+                walk(y, lits + [t if lab == 'T' else ast.UnaryOp(op=ast.Not(), operand=t)], seen | {nid})
+            else: walk(y, lits, seen | {nid})
+    walk(g.entry.id, [], frozenset())
+    if not disj: raise AnalysisError('C04: no path to the parenthesised return of base_src')
+    ors = [ast.BoolOp(op=ast.And(), values=l) if len(l) > 1 else (l[0] if l else ast.Constant(value=True)) for l in disj]
+    conds = [ast.BoolOp(op=ast.Or(), values=ors) if len(ors) > 1 else ors[0]]
     param = f.params[0]
     import builtins
     def ev(e, child, cp):
